@@ -19,20 +19,14 @@ var c16Hoistables = []string{
 	"func (u *U) sum() int {\n\treturn u.t.get() + M\n}\n",
 }
 
-const c16Ordered = `const K = 10
-
-const M = K + 3
-
-var g1 = note(1)
-
-var g2 = note(g1 + 1)
-
-var g3 = note(g2 + K)
-
-func init() {
-	fmt.Println("init", g1, g2, g3)
+var c16OrderedItems = []string{
+	"const K = 10\n",
+	"const M = K + 3\n",
+	"var g1 = note(1)\n",
+	"var g2 = note(g1 + 1)\n",
+	"var g3 = note(g2 + K)\n",
+	"func init() {\n\tfmt.Println(\"init\", g1, g2, g3)\n}\n",
 }
-`
 
 const c16Fixed = `func note(k int) int {
 	fmt.Println("note", k)
@@ -55,23 +49,39 @@ func genC16Prog(id int, rng *rand.Rand) *Prog {
 	names := []string{"a.go", "m.go", "z.go"}[:nfiles]
 	bodies := make([]strings.Builder, nfiles)
 	usesFmt := make([]bool, nfiles)
-	orderedAt := rng.Intn(nfiles)
 	fixedAt := rng.Intn(nfiles)
-	// hoistables before or after the ordered block within a file
+	// every declaration gets a file; hoistables anywhere, ordered items in non-decreasing file order (files are
+	// concatenated in name order, so their relative source order is their order across the files)
+	type item struct {
+		text    string
+		ordered bool
+	}
+	perFile := make([][]item, nfiles)
 	for _, h := range perm {
 		f := rng.Intn(nfiles)
-		bodies[f].WriteString(c16Hoistables[h] + "\n")
+		perFile[f] = append(perFile[f], item{c16Hoistables[h] + "\n", false})
 	}
-	// the ordered block goes at a random position of its file: prepend or append
-	var ob strings.Builder
-	if rng.Intn(2) == 0 {
-		ob.WriteString(c16Ordered + "\n" + bodies[orderedAt].String())
-	} else {
-		ob.WriteString(bodies[orderedAt].String() + c16Ordered + "\n")
+	f := 0
+	for _, o := range c16OrderedItems {
+		for f < nfiles-1 && rng.Intn(3) == 0 {
+			f++
+		}
+		// insert at a random position after the last ordered item of this file
+		pos := 0
+		for k, it := range perFile[f] {
+			if it.ordered {
+				pos = k + 1
+			}
+		}
+		pos += rng.Intn(len(perFile[f]) - pos + 1)
+		perFile[f] = append(perFile[f][:pos], append([]item{{o + "\n", true}}, perFile[f][pos:]...)...)
+		usesFmt[f] = true
 	}
-	bodies[orderedAt].Reset()
-	bodies[orderedAt].WriteString(ob.String())
-	usesFmt[orderedAt] = true
+	for i := range perFile {
+		for _, it := range perFile[i] {
+			bodies[i].WriteString(it.text)
+		}
+	}
 	bodies[fixedAt].WriteString(c16Fixed)
 	usesFmt[fixedAt] = true
 	files := map[string]string{}
@@ -124,6 +134,6 @@ func checkC16(tier string, seed int64) int {
 	eagg.Into(c, "layouts_")
 	c.Cov("layouts_paths_compared", st.compared)
 	c.Assumption(fmt.Sprintf("treeSort lemma: every list of 0..%d top-level nodes over 8 node kinds (import, type, const, method, function, init, var, call); sort.SliceStable is modelled as a stable insertion sort calling the real less closure", nodes))
-	c.Assumption(fmt.Sprintf("layouts: %d seeded (permutation of 6 hoistable declarations — struct types, methods and functions referring to each other, to constants and to types defined later, partition into 1–3 files) of one package, loaded with the real Load from an in-memory tree and compared with Go (whose semantics are order independent); constants, var initialisers and init stay in source order in one file, as the property states", nprogs))
+	c.Assumption(fmt.Sprintf("layouts: %d seeded (permutation of 6 hoistable declarations — struct types, methods and functions referring to each other, to constants and to types defined later, partition into 1–3 files) of one package, loaded with the real Load from an in-memory tree and compared with Go (whose semantics are order independent); constants, var initialisers and init keep their relative source order (they are spread over the files in non-decreasing file order and interleaved with the hoistables), as the property states", nprogs))
 	return c.Finish(false)
 }
